@@ -520,7 +520,9 @@ func runBackup(r *ev.Run, id caseID) {
 		return
 	}
 	defer conn.Close()
-	names := []string{"bk-a", "bk-b", "bk-c"}
+	// bk-empty holds nothing when it is captured; bk-max holds one pair at the limits (1024-byte
+	// key, 2 MiB value) next to a few small ones
+	names := []string{"bk-a", "bk-b", "bk-c", "bk-empty", "bk-max"}
 	captured := map[string]*model.Table{}
 	for i, n := range names {
 		if _, err := c.CreateTable(n); err != nil {
@@ -530,6 +532,12 @@ func runBackup(r *ev.Run, id caseID) {
 		content := genContent(g, n, i == 1)
 		if i == 2 && g.Intn(2) == 0 {
 			content = nil
+		}
+		if n == "bk-empty" {
+			content = nil
+		}
+		if n == "bk-max" {
+			content = []model.KV{{K: "a", V: []byte("1")}, {K: strings.Repeat("k", 1024), V: append([]byte("max|"), make([]byte, 2*1024*1024-4)...)}, {K: "z", V: []byte("2")}}
 		}
 		if i == 0 {
 			// the first table always holds the keys at the edges of the key space
